@@ -16,6 +16,7 @@ Decided (structural, necessary conditions):
 Not decided: convergence to ideal ground, medium splitting, far boundaries (numeric).
 """
 import ast
+import re
 from ..model import AnalysisError, walk_no_nested, parent, dotted, norm
 from ..rules import forbidden_effects, unresolved_named, is_none_test_context, describe_path
 
@@ -339,5 +340,34 @@ def run(ctx, ck):
     ck.ob('R-EFFECT.farfield-no-feedback', FAR + '|closure', not fb, far.loc(),
           'far-field closure (%d functions) writes only its own results' % len(far_seen))
     reflection_point(ctx, ck)
+    # per-medium values of the reflection: a loop over all media that fills the entries selected for each medium
+    # must reach every medium - leaving the loop early (break / return) leaves the entries of the later media at
+    # their initial value (impedance 0: perfect ground) whenever an earlier medium happens to have no reflection
+    ck.rule('R-EXH.media-loop', 'a loop over the media that fills per-medium values in the far field is never left early')
+    ff = ctx.flat(FAR)
+    n_ml = 0
+    for l_ in [x_ for x_ in ast.walk(ff.node) if isinstance(x_, ast.For)]:
+        if not re.search(r'\bself\.media\b', norm(l_.iter)):
+            continue
+        stores = [s_ for b_ in l_.body for s_ in ast.walk(b_) if isinstance(s_, (ast.Assign, ast.AugAssign)) and
+                  any(isinstance(t_, ast.Subscript) for t_ in (s_.targets if isinstance(s_, ast.Assign) else [s_.target]))]
+        if not stores:
+            continue
+        n_ml += 1
+        early = []
+        todo = list(l_.body)
+        while todo:
+            x_ = todo.pop()
+            if isinstance(x_, (ast.Break, ast.Return)):
+                early.append(x_)
+            if isinstance(x_, (ast.For, ast.While, ast.FunctionDef, ast.Lambda)):
+                todo.extend(y_ for y_ in ast.walk(x_) if isinstance(y_, ast.Return))
+                continue
+            todo.extend(ast.iter_child_nodes(x_))
+        ck.ob('R-EXH.media-loop', '%s|for %s' % (FAR, norm(l_.iter)[:40]), not early, ff.loc(early[0] if early else l_),
+              'every medium is visited' if not early else
+              'the loop over the media is left at the first medium without a reflection point: the entries of all later '
+              'media keep their initial value')
+    ck.info('media_loops_with_stores', n_ml)
     ck.undecided += ['convergence of the real-ground pattern to the ideal-ground pattern',
                      'invariance under medium splitting / far boundaries (numeric)']
